@@ -218,7 +218,7 @@ theorem cfiOf_link {a : Arch} {w : World} {mask : Nat} {mem : Mem} {f : Frame} {
         · exact absurd (by simpa using hleaf.1) h.1
       have hspm : f.ctx.sp ≤ a.regMax := by omega
       have hw2 := walkCfi_leaf { arch := a, callee := f.ctx, mem := mem }
-        { ctx := f.ctx, valid := a.calleeSaved } rec.init f.ctx.sp (f.ctx.raw a (lrName a)) hleaf.2.2
+        { ctx := f.ctx, valid := a.calleeSaved } rec.init f.ctx.sp (f.ctx.raw a (lrName a)) hleaf.2.1 hleaf.2.2
         (reg_sp_of_inv hval hspm) hspm (reg_lr_of_all hctx hleaf.2.1 hlrmax) hlrmax
       refine cfiOf_assemble hinv' (ip0 := f.ctx.raw a (lrName a)) (rest0 := f.ctx.rest) ?_ heret ?_
       · rw [hwalk, hw2, hesp]; rfl
